@@ -4,7 +4,7 @@ CONSTANTS MAXKILL = 1
  NSTEPS = 5
  CacheMode = "state"
  Layout = "dense_bypos"
- CompactMode = "everystep"
+ CompactMode = "output"
  NpidMode = "count"
 SPECIFICATION Spec
 INVARIANT DenseAddressing
